@@ -78,6 +78,9 @@ pub struct C05Trace {
     /// counter; the expected length is arithmetic
     #[serde(default)]
     pub huge: Option<Huge>,
+    /// for really long outputs (kilobytes): only the capacities 0, 1, L-1, L, L+1, L+2
+    #[serde(default)]
+    pub edge_caps_only: bool,
 }
 
 #[derive(Clone, Debug, Serialize, Deserialize)]
@@ -150,7 +153,8 @@ fn to_slice(m: &Msg, f: Framing, buf: &mut [u8]) -> Result<PcResult<(isize, Vec<
             Framing::Cobs => postcard::to_slice_cobs(&v, buf),
             Framing::Crc8 => sercrc::to_slice_u8(&v, buf, CRC8.digest()),
             Framing::Crc16 => sercrc::to_slice_u16(&v, buf, CRC16.digest()),
-            Framing::Crc32 => sercrc::to_slice_u32(&v, buf, CRC32.digest()),
+            // the crate-root convenience wrapper (a delegation to ser_flavors::crc::to_slice_u32)
+            Framing::Crc32 => postcard::to_slice_crc32(&v, buf, CRC32.digest()),
             Framing::Crc64 => sercrc::to_slice_u64(&v, buf, CRC64.digest()),
             Framing::Crc128 => sercrc::to_slice_u128(&v, buf, CRC128.digest()),
             Framing::Crc32OverCobs => {
@@ -382,14 +386,16 @@ fn exec_c05(t: &C05Trace, out: &mut Outcome<C05Trace>) {
             let b: VecDeque<u8> = postcard::to_extend(&v, VecDeque::new())?;
             let c = postcard::to_extend(&v, RecSink::default())?;
             let d = postcard::to_stdvec(&v)?;
-            Ok::<_, postcard::Error>((a, b.into_iter().collect::<Vec<u8>>(), c.bytes, d))
+            let e = postcard::to_stdvec_cobs(&v)? == postcard::to_allocvec_cobs(&v)?;
+            let f = postcard::to_stdvec_crc32(&v, CRC32.digest())? == postcard::to_allocvec_crc32(&v, CRC32.digest())?;
+            Ok::<_, postcard::Error>((a, b.into_iter().collect::<Vec<u8>>(), c.bytes, d, e && f))
         });
-        out.evals += 4;
+        out.evals += 8;
         match r {
-            Ok(Ok((a, b, c, d))) => {
+            Ok(Ok((a, b, c, d, same))) => {
                 let mut exp = pre.clone();
                 exp.extend_from_slice(&plain);
-                if a != exp || b != plain || c != plain || d != plain {
+                if a != exp || b != plain || c != plain || d != plain || !same {
                     fail!(
                         "growable-sinks",
                         Framing::Plain,
@@ -446,6 +452,12 @@ fn exec_c05(t: &C05Trace, out: &mut Outcome<C05Trace>) {
             let caps: Vec<usize> = match &t.focus {
                 Some(fc) if fc.storage == st => vec![fc.cap],
                 Some(_) => vec![],
+                None if t.edge_caps_only => {
+                    let mut v = vec![0, 1, l.saturating_sub(1), l, l + 1, l + 2];
+                    v.sort_unstable();
+                    v.dedup();
+                    v
+                }
                 None => (0..=l + 2).collect(),
             };
             for c in caps {
@@ -780,7 +792,22 @@ impl Scenario for C05 {
         } else {
             None
         };
-        C05Trace { msg, focus: None, huge }
+        // now and then one really long output (4 KiB .. 70 kB): lengths past 12 and 16 bits
+        if rng.chance(1, 300) && !crate::runner::small() {
+            use crate::shape::Val;
+            let n = *rng.pick(&[4095usize, 4096, 4097, 16383, 16384, 65535, 65536, 70000]);
+            let data: Vec<u8> = (0..n).map(|i| if i % 251 == 250 { 0 } else { 1 + (i % 254) as u8 }).collect();
+            let msg = match rng.below(3) {
+                0 => Msg { shape: Shape::Bytes, val: Val::Bytes(data) },
+                1 => Msg { shape: Shape::Str, val: Val::Str(data.iter().map(|b| (b'a' + b % 26) as char).collect()) },
+                _ => Msg {
+                    shape: Shape::Tuple(vec![Shape::U8, Shape::Bytes, Shape::U32]),
+                    val: Val::Seq(vec![Val::Uint(1), Val::Bytes(data), Val::Uint(70000)]),
+                },
+            };
+            return C05Trace { msg, focus: None, huge: None, edge_caps_only: true };
+        }
+        C05Trace { msg, focus: None, huge, edge_caps_only: false }
     }
     fn exec(t: &C05Trace, out: &mut Outcome<C05Trace>) {
         exec_c05(t, out)
@@ -800,7 +827,7 @@ impl Scenario for C05 {
         for m in shape::shrink_msg(&t.msg) {
             // a shrunk message has another output length: re-enumerate capacities for the same
             // framing/storage by dropping the capacity focus but keeping framing/storage
-            v.push(C05Trace { msg: m, focus: None, huge: t.huge.clone() });
+            v.push(C05Trace { msg: m, focus: None, huge: t.huge.clone(), edge_caps_only: t.edge_caps_only });
         }
         v
     }
@@ -814,7 +841,7 @@ impl Scenario for C05 {
             1 => Storage::SliceStartGuard,
             _ => return None,
         };
-        Some(C05Trace { msg: t.msg.clone(), focus: Some(Focus { framing, storage, cap: ctx[3] as usize }), huge: None })
+        Some(C05Trace { msg: t.msg.clone(), focus: Some(Focus { framing, storage, cap: ctx[3] as usize }), huge: None, edge_caps_only: false })
     }
     fn rule() -> &'static str {
         "one case = one value (dynamic shape over the whole serde data model, boundary-biased) x one framing (plain, COBS, CRC-8/16/32/64/128, CRC-32 over COBS) with the fault 'sink runs out at byte c' enumerated completely: every slice capacity c in 0..=L+2 at both guard placements, every instantiated heapless capacity <= L+2 and the next one above; plus size counter, Vec, VecDeque, recording Extend sink. distinct_nontrivial counts distinct (set of kinds in the shape, output length L, framing) with L >= 2, so that at least one capacity fails after a partial write."
